@@ -18,6 +18,51 @@ func init() {
 	ops["ConcRound"] = opConcRound
 	ops["LinRound"] = opConcRound
 	ops["AtomRound"] = opAtomRound
+	ops["TxRound"] = opTxRound
+}
+
+// opTxRound: k goroutines call MatchTxAndUpdate, each on its own transaction paying to the same
+// watched public key.  Every call must match and (unless the flag is UpdateNone) every
+// transaction's outpoint 0 must end up in the filter: no update may be lost.
+func opTxRound(_ *HState, a Event) Event {
+	k := gInt(a, "k")
+	nbytes, nhash, flags := gInt(a, "nbytes"), gInt(a, "nhash"), gInt(a, "flags")
+	item := poolItem(0)
+	f := bloom.LoadFilter(wire.NewMsgFilterLoad(make([]byte, nbytes), uint32(nhash), gW32(a, "tweak"), wire.BloomUpdateType(flags)))
+	f.Add(item)
+	init := setBits(f.MsgFilterLoad().Filter)
+	txs := make([]*wire.MsgTx, k)
+	var txids [][]int
+	for g := 0; g < k; g++ {
+		desc := []interface{}{map[string]interface{}{
+			"outs": []interface{}{map[string]interface{}{"kind": []string{"pk", "ms"}[g%2], "item": 0, "item2": 0}},
+			"ins":  []interface{}{map[string]interface{}{"parent": -1, "out": g, "sig": -1, "ext": g}}}}
+		txs[g] = buildTxs(desc, gInt(a, "salt")+g)[0]
+		h := txs[g].TxHash()
+		txids = append(txids, ints(h[:]))
+	}
+	rets := make([]bool, k)
+	var wg sync.WaitGroup
+	start := make(chan struct{})
+	var panics int32
+	for g := 0; g < k; g++ {
+		wg.Add(1)
+		go func(g int) {
+			defer wg.Done()
+			<-start
+			p, _ := guard(func() { rets[g] = f.MatchTxAndUpdate(bchutil.NewTx(txs[g])) })
+			if p {
+				atomic.AddInt32(&panics, 1)
+			}
+		}(g)
+	}
+	close(start)
+	wg.Wait()
+	e := with(a, "item", ints(item), "init", init, "txids", txids, "rets", rets, "final", setBits(f.MsgFilterLoad().Filter))
+	if panics > 0 {
+		e["panic"] = "panic inside MatchTxAndUpdate"
+	}
+	return e
 }
 
 // opAtomRound: one goroutine inserts a long item (hashing takes microseconds) while another
@@ -187,11 +232,13 @@ func opConcRound(_ *HState, a Event) Event {
 
 // stress hammers every documented-safe operation (including transaction matching with
 // update, reload and unload) from many goroutines; only the race detector and panics judge.
-func stress(c *Ctx, k, n int) int {
+func stress(c *Ctx, k, n int, flags int) int {
 	r := c.Rng
 	desc := randDesc(c, 3, 3)
 	txs := buildTxs(desc, 7)
-	f := bloom.LoadFilter(wire.NewMsgFilterLoad(make([]byte, 4), 2, 1, wire.BloomUpdateAll))
+	f := bloom.LoadFilter(wire.NewMsgFilterLoad(make([]byte, 4), 2, 1, wire.BloomUpdateType(flags)))
+	f.Add(poolItem(0))
+	f.Add(poolItem(1))
 	seeds := make([]int64, k)
 	for i := range seeds {
 		seeds[i] = r.Int63()
@@ -215,7 +262,7 @@ func stress(c *Ctx, k, n int) int {
 					case 3:
 						f.MsgFilterLoad()
 					case 4:
-						f.Reload(wire.NewMsgFilterLoad(make([]byte, 1+rr.Intn(4)), 2, 1, wire.BloomUpdateAll))
+						f.Reload(wire.NewMsgFilterLoad(make([]byte, 1+rr.Intn(4)), 2, 1, wire.BloomUpdateType(flags)))
 					case 5:
 						if rr.Intn(8) == 0 {
 							f.Unload()
@@ -249,7 +296,7 @@ func concItem(c *Ctx, k int) []byte {
 func runC20(c *Ctx) {
 	r := c.Rng
 	c.Batch = 25
-	if p := stress(c, 8, c.Pick(400, 4000)); p > 0 {
+	if p := stress(c, 8, c.Pick(400, 4000), 1) + stress(c, 8, c.Pick(200, 2000), 2) + stress(c, 8, c.Pick(200, 2000), 0); p > 0 {
 		c.Call(Event{"op": "ConcRound", "nbytes": 1, "nhash": 1, "tweak": w32(0), "flags": 0, "init": []int{}, "prog": []interface{}{}, "panic": "stress: panic inside concurrent calls"})
 	}
 	// (ii) one load epoch, any number of goroutines: insertions / queries only
@@ -287,6 +334,11 @@ func runC20(c *Ctx) {
 			prog = append(prog, ops)
 		}
 		c.Call(Event{"op": "ConcRound", "nbytes": nbytes, "nhash": nhash, "tweak": w32(r.Uint32()), "flags": 0, "init": init, "prog": prog})
+	}
+	// concurrent MatchTxAndUpdate under every update flag: no outpoint insertion may be lost
+	for round := 0; round < c.Pick(90, 900); round++ {
+		c.Call(Event{"op": "TxRound", "k": []int{2, 4, 8, 16}[round%4], "nbytes": 64, "nhash": 3, "tweak": w32(r.Uint32()), "flags": round % 3,
+			"salt": int(r.Int31n(50000))})
 	}
 	// atomicity of an insertion against concurrent reloads with another tweak
 	for round := 0; round < c.Pick(40, 400); round++ {
